@@ -689,6 +689,14 @@ impl Network {
                             continue;
                         }
 
+                        // a scratchpad of another owner is validly signed too, but does not belong under this key
+                        if scratchpad.network_address().to_record_key() != *key {
+                            warn!(
+                                "Rejecting Scratchpad for {pretty_key} that belongs to another address during split record error"
+                            );
+                            continue;
+                        }
+
                         if let Some(old) = &valid_scratchpad {
                             if old.count() >= scratchpad.count() {
                                 info!(
